@@ -197,6 +197,10 @@ class ExprGen:
             m = r.choice(["all", "exists", "exists_one", "all", "exists"])
             return f"{src}.{m}({v}, {body})"
         if k == 9:
+            if r.random() < 0.4:
+                # regular expressions; the pattern depends on the salt so that threads differ
+                pat = r.choice(["^a", "b$", "^[a-z]+$", "a.c", "^$", "[0-9]+"]) + r.choice(["", f"|x{self.salt}"])
+                return f'{self.str_(d - 1)}.matches("{pat}")'
             fn = r.choice(["startsWith", "endsWith", "contains"])
             return f"{self.str_(d - 1)}.{fn}({self.str_(0)})"
         if k == 10:
